@@ -395,11 +395,12 @@ func c10Gen(g *core.Gen) {
 	}
 	for _, v := range []int{98, 99} {
 		g.Emit(&c10Case{Dir: "write", Sizes: []int{5, 8, 2}, Names: c10NameSets[0][:3], Volumes: v})
-		if v <= 3 {
-			for tw := 1; tw <= 5; tw++ {
-				g.Emit(&c10Case{Dir: "write", Sizes: []int{5, 8, 2}, Names: c10NameSets[0][:3], Volumes: v, Twin: tw})
-				g.Emit(&c10Case{Dir: "write", Sizes: []int{17000, 16384, 3}, Names: c10NameSets[2][:3], Volumes: v, Twin: tw})
-			}
+	}
+	// near-twin histories: the judged Create right after one that differs from it in exactly one respect
+	for v := 1; v <= 3; v++ {
+		for tw := 1; tw <= 5; tw++ {
+			g.Emit(&c10Case{Dir: "write", Sizes: []int{5, 8, 2}, Names: c10NameSets[0][:3], Volumes: v, Twin: tw})
+			g.Emit(&c10Case{Dir: "write", Sizes: []int{17000, 16384, 3}, Names: c10NameSets[2][:3], Volumes: v, Twin: tw})
 		}
 	}
 	// reader direction: many listed files of which only a few are in the parity set (file counts around 99, 255, 256, 300)
